@@ -1,4 +1,5 @@
 import RtenVerif.Lemmas.SimdLoop
+import RtenVerif.Lemmas.SimdFold
 
 /-!
 # C18 — SIMD instruction sets agree and stay within slice bounds
@@ -194,6 +195,99 @@ example : wRun ⟨10, 0, []⟩ [.vec 4, .vec 4, .vec 4] = none := by decide
 /-- The hypothesis `0 < v` of T1 is needed: with `v = 0` the real loop `while n >= 0` never
 terminates; the fuel-bounded model stops, but not with the full coverage. -/
 example : touched (simdMap 0 3) ≠ List.range 3 := by decide
+
+
+/-! ## T1h — fold skeletons: padding lanes never reach an accumulator -/
+
+section FoldThms
+variable {α β : Type}
+
+/-- **C18.T1h** `Iter::fold` and `Iter::fold_n` (per-lane state `β` = one value resp. an
+`N`-tuple): for every slice `xs`, width `v > 0`, per-lane accumulate function `f`, initial
+accumulator and padding value, every lane `j < v` of the result is the scalar left fold of
+exactly the elements `xs[j], xs[j+v], …` (element `i` goes to lane `i mod v`, once, in order).
+The zero padding of the tail vector is never folded in: the tail step keeps the old
+accumulator where the mask is off. -/
+theorem c18_fold_exact (f : β → α → β) (pad : α) (v : Nat) (hv : 0 < v) (xs : List α)
+    (acc : Nat → β) (j : Nat) (hj : j < v) :
+    iterFold true f pad v xs acc j = sFold v f 0 xs acc j := by
+  obtain ⟨c, e1, e2, e3, e4⟩ := mainLoop_spec f pad v hv xs.length xs acc (Nat.le_refl _)
+  have hs : sFold v f 0 xs acc j = sFold v f 0 (c ++ (mainLoop f pad v xs.length xs acc).1) acc j := by
+    rw [← e1]
+  unfold iterFold
+  generalize mainLoop f pad v xs.length xs acc = r at *
+  rw [hs, sFold_append, e3,
+    sFold_congr v f r.1 0 (sFold v f 0 c acc) r.2 hv (fun i hi => (e4 i hi).symm) j hj,
+    sFold_run v f pad r.1 0 r.2 hv (by omega) j]
+  unfold foldTail
+  by_cases hpos : r.1.length > 0
+  · simp only [hpos, if_true, vselect, vfold, loadVec]
+    by_cases hl : j < r.1.length
+    · have h1 : j < min r.1.length v := by omega
+      have h2 : 0 ≤ j ∧ j < 0 + r.1.length := by omega
+      simp [h1, h2]
+      intro h; exact absurd h (by omega)
+    · have h1 : ¬ j < min r.1.length v := by omega
+      have h2 : ¬ (0 ≤ j ∧ j < 0 + r.1.length) := by omega
+      simp [h1, h2]
+      intro h; exact absurd h (by omega)
+  · have h2 : ¬ (0 ≤ j ∧ j < 0 + r.1.length) := by omega
+    simp [hpos]
+    intro h; exact absurd h (by omega)
+
+/-- **C18.T1i** `fold_unroll<u>` / `fold_n_unroll<_, u>`, main phase: the `u` accumulators
+(= `v·u` virtual lanes) receive whole `v·u`-blocks only — no padding is involved — and hold the
+exact lane folds of the consumed prefix; fewer than `v·u` elements are left. -/
+theorem c18_fold_unroll_main (f : β → α → β) (pad : α) (v u : Nat) (hv : 0 < v) (hu : 0 < u)
+    (xs : List α) (acc : Nat → β) :
+    ∃ consumed, xs = consumed ++ (mainLoop f pad (v * u) xs.length xs acc).1 ∧
+      (mainLoop f pad (v * u) xs.length xs acc).1.length < v * u ∧
+      ∀ l, l < v * u →
+        (mainLoop f pad (v * u) xs.length xs acc).2 l = sFold (v * u) f 0 consumed acc l := by
+  obtain ⟨c, e1, e2, _, e4⟩ :=
+    mainLoop_spec f pad (v * u) (Nat.mul_pos hv hu) xs.length xs acc (Nat.le_refl _)
+  exact ⟨c, e1, e2, e4⟩
+
+/-- **C18.T1j** `fold_unroll`, final phase: after the caller's `fold_acc` merged the `u`
+accumulators, the remaining elements go through `fold` (T1h): the result is the exact lane
+fold of the remaining elements starting from the merged accumulator — again no padding lane
+reaches it.  (That merging `u` partial folds equals one sequential fold is the *caller's*
+obligation on `fold`/`fold_acc` — associative-commutative operation, neutral initial value —
+not a property of the loop.) -/
+theorem c18_fold_unroll_tail (f : β → α → β) (facc : β → β → β) (pad : α) (v u : Nat)
+    (hv : 0 < v) (xs : List α) (init : Nat → β) (j : Nat) (hj : j < v) :
+    foldUnroll f facc pad v u xs init j =
+      sFold v f 0 (mainLoop f pad (v * u) xs.length xs (fun l => init (l % v))).1
+        (fun j => (List.range (u - 1)).foldl
+          (fun a i => facc a ((mainLoop f pad (v * u) xs.length xs (fun l => init (l % v))).2
+            ((i + 1) * v + j)))
+          ((mainLoop f pad (v * u) xs.length xs (fun l => init (l % v))).2 j)) j := by
+  unfold foldUnroll
+  exact c18_fold_exact f pad v hv _ _ j hj
+
+end FoldThms
+
+/-- The full statement is FALSE of the loop without the tail `select` (the defect class
+"padding leaks into the accumulator"): minimum of `[15, 85, 25]` with 4 lanes and zero padding —
+lane 3 receives `min(1000, 0) = 0`, so the horizontal minimum becomes `0` although no element is
+smaller than 15. -/
+theorem c18_fold_without_select_false :
+    ¬ (∀ j, j < 4 → iterFold false (fun a x => min a x) 0 4 [15, 85, 25] (fun _ => 1000) j
+        = sFold 4 (fun a x => min a x) 0 [15, 85, 25] (fun _ => (1000 : Nat)) j) := by
+  intro h
+  exact absurd (h 3 (by decide)) (by decide)
+
+/-- Non-vacuity: with the select the lanes are `[15, 85, 25, 1000]`; two-accumulator
+(min, max) fold over a full chunk plus a tail; unrolled sum. -/
+example : (List.range 4).map (iterFold true (fun a x => min a x) 0 4 [15, 85, 25] (fun _ => 1000))
+    = [15, 85, 25, 1000] := by decide
+example : (List.range 2).map
+    (iterFold true (fun (a : Nat × Nat) x => (min a.1 x, max a.2 x)) 0 2 [5, 9, 7] (fun _ => (100, 0)))
+    = [(5, 7), (9, 9)] := by decide
+example : (List.range 2).map
+    (foldUnroll (fun a x => a + x) (fun a b => a + b) 0 2 2 [1, 2, 3, 4, 5, 6, 7] (fun _ => 0))
+    = [1 + 3 + 5 + 7, 2 + 4 + 6] := by decide
+
 
 /-! ## T2 — scalar lane semantics -/
 
